@@ -739,7 +739,7 @@ package circuitbreaker
 //@   oldlet dr := nil
 //@   oldlet dn := -1
 //@   oncall (*BaseFailurePolicy).HandleErrors: nd := nd + 1; dr := callarg_0; dn := len(callarg_1)
-//@   ensures [C12.breaker.handleerrors_delegates+C03.builder.handleerrors] nd == 1 && dr == c.BaseFailurePolicy && result_0 == asiface(c) && dn == len(errs)
+//@   ensures [C12.breaker.handleerrors_delegates+C03.builder.handleerrors+C04.builder.handleerrors] nd == 1 && dr == c.BaseFailurePolicy && result_0 == asiface(c) && dn == len(errs)
 //@   havoc
 //@   modifies *
 //@ func (*config).HandleErrorTypes
@@ -749,7 +749,7 @@ package circuitbreaker
 //@   oldlet dr := nil
 //@   oldlet dn := -1
 //@   oncall (*BaseFailurePolicy).HandleErrorTypes: nd := nd + 1; dr := callarg_0; dn := len(callarg_1)
-//@   ensures [C12.breaker.handleerrortypes_delegates+C03.builder.handleerrortypes] nd == 1 && dr == c.BaseFailurePolicy && result_0 == asiface(c) && dn == len(errs)
+//@   ensures [C12.breaker.handleerrortypes_delegates+C03.builder.handleerrortypes+C04.builder.handleerrortypes] nd == 1 && dr == c.BaseFailurePolicy && result_0 == asiface(c) && dn == len(errs)
 //@   havoc
 //@   modifies *
 //@ func (*config).HandleResult
@@ -758,7 +758,7 @@ package circuitbreaker
 //@   oldlet nd := 0
 //@   oldlet dr := nil
 //@   oncall (*BaseFailurePolicy).HandleResult: nd := nd + 1; dr := callarg_0
-//@   ensures [C12.breaker.handleresult_delegates+C03.builder.handleresult] nd == 1 && dr == c.BaseFailurePolicy && result_0 == asiface(c)
+//@   ensures [C12.breaker.handleresult_delegates+C03.builder.handleresult+C04.builder.handleresult] nd == 1 && dr == c.BaseFailurePolicy && result_0 == asiface(c)
 //@   havoc
 //@   modifies *
 //@ func (*config).HandleIf
@@ -768,7 +768,7 @@ package circuitbreaker
 //@   oldlet dr := nil
 //@   oldlet da := nil
 //@   oncall (*BaseFailurePolicy).HandleIf: nd := nd + 1; dr := callarg_0; da := callarg_1
-//@   ensures [C12.breaker.handleif_delegates+C03.builder.handleif] nd == 1 && dr == c.BaseFailurePolicy && result_0 == asiface(c) && da == predicate
+//@   ensures [C12.breaker.handleif_delegates+C03.builder.handleif+C04.builder.handleif] nd == 1 && dr == c.BaseFailurePolicy && result_0 == asiface(c) && da == predicate
 //@   havoc
 //@   modifies *
 
